@@ -37,7 +37,7 @@ class Ref:
         self.graph = case["graph"]
         self.loc = {n[0]: (n[1][0], n[1][1]) for n in self.graph}
         self.q = tuple(case["loc"])
-        self.r = case["radius"]
+        self.r = math.inf if case["radius"] is None else case["radius"]  # None = unbounded (what the matchers pass without max_dist)
         M = max([abs(c) for p in self.loc.values() for c in p] + [abs(self.q[0]), abs(self.q[1])])
         self.M = M
         if self.latlon:
@@ -109,7 +109,7 @@ def check_query(case, m, ref, ctx, classes):
     edges = base.graph_edges(ref.graph)
     # ---------------- nodes
     with base.quiet():
-        res = base.pkg(m.nodes_closeto, q, max_dist=r, max_elmt=me)
+        res = base.pkg(m.nodes_closeto, q, max_dist=r, max_elmt=me)  # r is math.inf for an unbounded query
     info = {lab: ref.node_dist(lab) for lab in ref.loc}
     must = {lab for lab, (d, s) in info.items() if s == "in"}
     may = must | {lab for lab, (d, s) in info.items() if s == "dontcare"}
@@ -268,16 +268,23 @@ def _case(draw, tier):
         q = (min(ys) - 1 + draw(st.integers(0, 100)) / 100.0 * (max(ys) - min(ys) + 2),
              min(xs) - 1 + draw(st.integers(0, 100)) / 100.0 * (max(xs) - min(xs) + 2))
         r = gen.pick(draw, [0.3, 0.7, 1.0, 1.5, 3.0, 10.0])
+    if draw(st.integers(0, 9)) == 0:
+        r = None  # unbounded radius
+        mode = mode + "+unbounded"
     me = draw(st.sampled_from([None, None, None, 0, 1, 3]))
     case = {"backend": backend, "magnitude": magnitude, "mode": mode, "max_elmt": me}
+    if r is None:
+        pass
     if magnitude == "degrees":
         org = draw(gen.origin())
+        if draw(st.integers(0, 7)) == 0:
+            org[1] = draw(st.sampled_from([180.0, -180.0, 179.999, -179.9995]))  # content on both sides of the antimeridian
         case.update(metric="latlon", graph=gen.place_graph(g, org, unit),
-                    loc=list(gs.local_to_latlon(org, q[0] * unit, q[1] * unit)), radius=r * unit, origin=org)
+                    loc=list(gs.local_to_latlon(org, q[0] * unit, q[1] * unit)), radius=None if r is None else r * unit, origin=org)
     elif magnitude == "metres":
         oy, ox = gen.pick(draw, [(5.0e6, 3.0e6), (6.5e6, 7.0e6), (5123456.0, 654321.0)])
         case.update(metric="planar", graph=[[lab, [oy + unit * p[0], ox + unit * p[1]], list(nb)] for lab, p, nb in g],
-                    loc=[oy + unit * q[0], ox + unit * q[1]], radius=r * unit)
+                    loc=[oy + unit * q[0], ox + unit * q[1]], radius=None if r is None else r * unit)
     else:
         case.update(metric="planar", graph=g, loc=[q[0], q[1]], radius=r)
     return case
